@@ -6,6 +6,9 @@ cfg/<ID>.json:
               thorough_only}
   race_rule:  regex on the innermost non-runtime frame of a race report that
               makes the report a violation of this property (else recorded only)
+  race_rule_needs: optional regex that must also match inside one of the two
+              access stacks (e.g. runtime\\.map for concurrent map access, the
+              process-fatal kind of race)
   hang_is_violation: whether a re-confirmed non-terminating case with a running
               ecal goroutine is a violation (default true)
   level, assumptions, technique, level_text, level_note: manifest/evidence texts
